@@ -44,6 +44,238 @@ def given_of(kw, scp):
     return r
 
 
+SDP_ORDER = ["reply_expected", "tag", "dest_port", "dest_cpu", "src_port", "src_cpu", "dest_x", "dest_y", "src_x",
+             "src_y", "data"]                                   # the documented order of the constructor's parameters
+SCP_ORDER = SDP_ORDER[:-1] + ["cmd_rc", "seq", "arg1", "arg2", "arg3", "data"]
+OPTIONAL = ("reply_expected", "tag", "src_port", "src_cpu", "src_x", "src_y", "seq", "data")
+
+
+def given_partial(kw, scp):
+    """as given_of, for calls that leave optional parameters out: only what the caller said is demanded (an argument
+    or payload left out is an absent argument / an empty payload)"""
+    r = dict(data=list(bytes(kw.get("data", b""))))
+    if "reply_expected" in kw:
+        r["reply"] = 1 if kw["reply_expected"] else 0
+    for f, short in SHORT.items():
+        if f in kw:
+            r[short] = kw[f]
+    if scp:
+        r["args"] = [le4(kw.get("arg1")), le4(kw.get("arg2")), le4(kw.get("arg3"))]
+    return r
+
+
+def more_families(chk, rng, evs):
+    """Input families added by the coverage audit: payloads as long as a datagram allows; decoded packets encoded
+    again, unchanged and after assignments; constructors called positionally and with optional parameters left out;
+    payloads / datagrams as bytearray and memoryview, a bytearray payload changed in place between two encodings;
+    several packets alive at once with every result looked at only after all calls were made; enum commands; the
+    default and positional n_args.  Every call into rig is guarded: an exception is an event (`raised`)."""
+    class Raised(Exception):
+        pass
+
+    def guard(what, fn, *a, **k):
+        try:
+            return fn(*a, **k)
+        except Exception as ex:                                        # noqa - whatever rig raises is data
+            evs.append(["raised", what, type(ex).__name__])
+            raise Raised()
+
+    def rand_kw(scp, na=None, plen=None):
+        kw = dict(reply_expected=rng.random() < 0.5)
+        for f, w in WIDTHS.items():
+            if scp or f not in ("cmd_rc", "seq"):
+                kw[f] = rng.choice((0, w, rng.randint(0, w)))
+        kw["data"] = bytes(rng.randrange(256) for _ in range(rng.randint(0, 13) if plen is None else plen))
+        if scp:
+            na = rng.randint(0, 3) if na is None else na
+            args = [rng.choice((0, 1, 0x80000000, 0xFFFFFFFF, rng.randrange(1 << 32))) for _ in range(na)]
+            args += [None] * (3 - na)
+            kw.update(arg1=args[0], arg2=args[1], arg3=args[2])
+        return kw
+
+    def enc(p, scp, what="bytestring"):
+        r = guard("rec_of", rec_of, p, scp)
+        b = guard(what, lambda: p.bytestring)
+        evs.append(["scp_enc" if scp else "sdp_enc", r, list(guard("bytes", bytes, b))])
+        return b
+
+    def dec(b, scp, n=None, how="kw"):
+        """n=None: SDP decode; how: n_args by keyword, positionally or left to its default (3)"""
+        if not scp:
+            q = guard("SDPPacket.from_bytestring", SDPPacket.from_bytestring, b)
+            evs.append(["sdp_dec", list(bytes(b)), guard("rec_of", rec_of, q, False)])
+        else:
+            if how == "default":
+                q, n = guard("SCPPacket.from_bytestring", SCPPacket.from_bytestring, b), 3
+            elif how == "pos":
+                q = guard("SCPPacket.from_bytestring", SCPPacket.from_bytestring, b, n)
+            else:
+                q = guard("SCPPacket.from_bytestring", SCPPacket.from_bytestring, b, n_args=n)
+            evs.append(["scp_dec", list(bytes(b)), n, guard("rec_of", rec_of, q, True)])
+        return q
+
+    def assign(p, scp):
+        """one public attribute assigned (present arguments stay a prefix)"""
+        fields = [f for f in WIDTHS if scp or f not in ("cmd_rc", "seq")] + ["data", "reply_expected"]
+        if scp:
+            fields += ["cmd_rc", "seq", "arg1", "arg2", "arg3"] * 2
+        f = rng.choice(fields)
+        if f == "data":
+            p.data = bytes(rng.randrange(256) for _ in range(rng.randint(0, 9)))
+        elif f == "reply_expected":
+            p.reply_expected = not p.reply_expected
+        elif f in ("arg1", "arg2", "arg3"):
+            present = [a for a in ("arg1", "arg2", "arg3") if getattr(p, a) is not None]
+            k = int(f[3])
+            if k <= len(present) + 1:                                   # an existing one or the next one
+                setattr(p, f, rng.choice((0, 0xFFFFFFFF, rng.randrange(1 << 32))))
+            elif present:                                               # drop the last one
+                setattr(p, present[-1], None)
+        else:
+            setattr(p, f, rng.randint(0, WIDTHS[f]))
+
+    # 1. payloads of any length: around 256 (+ the 16 bytes of an SCP header), a kilobyte, an Ethernet frame, the
+    #    longest datagram UDP carries
+    for ln in [255, 256, 257, 271, 272, 273, 1024] + chk.pick([1472], [511, 512, 513, 1472, 4096, 9000]):
+        for scp, na in ((False, 0), (True, 0), (True, 3), (True, rng.randint(1, 2))):
+            try:
+                kw = rand_kw(scp, na, ln)
+                p = guard("constructor", SCPPacket if scp else SDPPacket, **kw)
+                evs.append(["new", given_of(kw, scp), guard("rec_of", rec_of, p, scp)])
+                b = enc(p, scp)
+                dec(b, scp, 3)
+                if scp:
+                    dec(b, True, rng.randint(0, 2))
+                    dec(b, False)
+            except Raised:
+                pass
+            chk.note_case(("long", scp, na, ln))
+    for ln in (65507 - 10, ):
+        try:
+            kw = rand_kw(False, 0, ln)
+            b = enc(guard("constructor", SDPPacket, **kw), False)
+            dec(b, False)
+            kw = rand_kw(True, 2, ln - 12)
+            b = enc(guard("constructor", SCPPacket, **kw), True)
+            dec(b, True, 3)
+        except Raised:
+            pass
+        chk.note_case(("longest", ln))
+
+    # 2. a decoded packet is a packet: encoded again as it is, and after assignments (a reply turned round)
+    for rep in range(chk.pick(160, 6000)):
+        scp = rng.random() < 0.75
+        try:
+            if rng.random() < 0.5:
+                ln = rng.randint(14 if scp else 10, 34)
+                b = bytes([0, 0, rng.choice([0x87, 0x07])] + [rng.randrange(256) for _ in range(ln - 3)])
+            else:
+                b = guard("bytestring", lambda: (SCPPacket if scp else SDPPacket)(**rand_kw(scp)).bytestring)
+            q = dec(b, scp, rng.randint(0, 3), how=rng.choice(("kw", "pos")))
+            for step in range(rng.randint(1, 3)):
+                enc(q, scp)
+                assign(q, scp)
+            enc(q, scp)
+        except Raised:
+            pass
+        chk.note_case(("decoded-then-encoded", scp, rep))
+
+    # 3. constructors called as documented in other ways: leading parameters positionally, optional ones left out
+    for rep in range(chk.pick(160, 6000)):
+        scp = rng.random() < 0.6
+        order = SCP_ORDER if scp else SDP_ORDER
+        kw = rand_kw(scp)
+        npos = rng.choice((0, len(order), rng.randint(0, len(order))))
+        pos = [kw[f] for f in order[:npos]]
+        rest = {f: kw[f] for f in order[npos:]}
+        for f in list(rest):
+            if (f in OPTIONAL or (f.startswith("arg") and rest[f] is None)) and rng.random() < 0.4:
+                del rest[f]
+        said = dict(rest)
+        said.update({f: kw[f] for f in order[:npos]})
+        try:
+            p = guard("constructor", SCPPacket if scp else SDPPacket, *pos, **rest)
+            evs.append(["new", given_partial(said, scp), guard("rec_of", rec_of, p, scp)])
+            b = enc(p, scp)
+            dec(b, scp, 3, how=rng.choice(("kw", "pos", "default")))
+        except Raised:
+            pass
+        chk.note_case(("call-shape", scp, npos, sorted(rest), rep))
+
+    # 4. other objects that hold bytes: payloads given as bytearray / memoryview, datagrams decoded from them, a
+    #    bytearray payload changed in place between two encodings of one packet
+    for rep in range(chk.pick(120, 4000)):
+        scp = rng.random() < 0.6
+        kw = rand_kw(scp)
+        kind = rng.choice((bytearray, bytearray, memoryview))
+        kw["data"] = kind(kw["data"])
+        try:
+            p = guard("constructor", SCPPacket if scp else SDPPacket, **kw)
+            evs.append(["new", given_partial(kw, scp), guard("rec_of", rec_of, p, scp)])
+            b = enc(p, scp)
+            for step in range(rng.randint(1, 3)):
+                if kind is bytearray:
+                    d = p.data                                           # the caller's own object
+                    how = rng.randrange(4)
+                    if how == 0 and len(d):
+                        d[rng.randrange(len(d))] ^= 1 << rng.randrange(8)
+                    elif how == 1:
+                        d.extend(bytes(rng.randrange(256) for _ in range(rng.randint(1, 5))))
+                    elif how == 2 and len(d):
+                        del d[rng.randrange(len(d)):]
+                    else:
+                        d[:] = bytes(rng.randrange(256) for _ in range(rng.randint(0, 9)))
+                else:
+                    assign(p, scp)
+                b = enc(p, scp)
+            dec(rng.choice((bytearray, memoryview))(b), scp, rng.randint(0, 3))
+        except Raised:
+            pass
+        chk.note_case(("buffers", scp, kind.__name__, rep))
+
+    # 5. several packets alive at once; every result is looked at only after all the calls were made
+    try:
+        from rig.machine_control.consts import SCPCommands
+        cmds = list(SCPCommands)
+    except Exception:                                                    # noqa
+        cmds = []
+    for rep in range(chk.pick(60, 2500)):
+        n = rng.randint(2, 5)
+        try:
+            ps = []
+            for i in range(n):
+                scp = rng.random() < 0.7
+                kw = rand_kw(scp)
+                if scp and cmds and rng.random() < 0.5:
+                    kw["cmd_rc"] = rng.choice(cmds)                      # what rig's own callers pass
+                ps.append((scp, guard("constructor", SCPPacket if scp else SDPPacket, **kw), kw))
+            order = list(range(n)) * 2
+            rng.shuffle(order)
+            held = []
+            for i in order:
+                scp, p, kw = ps[i]
+                held.append((scp, guard("rec_of", rec_of, p, scp), guard("bytestring", lambda: p.bytestring)))
+            decs = []
+            for scp, r, b in held:
+                na = rng.randint(0, 3)
+                if scp:
+                    decs.append((True, b, na, guard("from_bytestring", SCPPacket.from_bytestring, b, n_args=na)))
+                else:
+                    decs.append((False, b, None, guard("from_bytestring", SDPPacket.from_bytestring, b)))
+            for (scp, p, kw) in ps:
+                evs.append(["new", given_of(kw, scp), guard("rec_of", rec_of, p, scp)])
+            for scp, r, b in held:
+                evs.append(["scp_enc" if scp else "sdp_enc", r, list(bytes(b))])
+            for scp, b, na, q in decs:
+                if scp:
+                    evs.append(["scp_dec", list(bytes(b)), na, guard("rec_of", rec_of, q, True)])
+                else:
+                    evs.append(["sdp_dec", list(bytes(b)), guard("rec_of", rec_of, q, False)])
+        except Raised:
+            pass
+        chk.note_case(("alive-together", n, rep))
+
+
 def run(chk):
     rng = random.Random(chk.seed)
     chk.design("PacketsDesign", "PacketsDesign.cfg", expect_actions=("SetField",))
@@ -150,11 +382,24 @@ def run(chk):
                 setattr(p, f, rng.randint(0, WIDTHS[f]))
         chk.note_case(("re-encode", scp, sorted(kw.items(), key=str)))
 
-    traces = [dict(ev=evs[i:i + 200]) for i in range(0, len(evs), 200)]
+    more_families(chk, rng, evs)
+
+    traces, cur, size = [], [], 0
+    for e in evs:                      # at most 200 events and ~1.5 MB of numbers per trace (long payloads)
+        n = sum(len(x) if isinstance(x, list) else len(x.get("data", ())) if isinstance(x, dict) else 1 for x in e)
+        if cur and (len(cur) >= 200 or size + n > 400000):
+            traces.append(dict(ev=cur)); cur, size = [], 0
+        cur.append(e); size += n
+    if cur:
+        traces.append(dict(ev=cur))
     chk.rule = ("every header field swept over its full width (16-bit fields: both ends, equal-byte values and random "
                 "values) with all other fields all-zeros and all-ones, SDP and SCP; 0-3 arguments x payload lengths "
-                "0..16 x random headers; raw datagrams of length 14..30 decoded with n_args 0..3; distinct = distinct "
-                "constructor arguments / datagram bytes")
+                "0..16 x random headers; raw datagrams of length 14..30 decoded with n_args 0..3; payloads of 255..273, "
+                "1024, 1472 and 65497 bytes; decoded packets encoded again, unchanged and after assignments; "
+                "constructors called positionally / with optional parameters left out; bytearray and memoryview "
+                "payloads and datagrams, a bytearray payload changed in place between encodings; 2-5 packets alive "
+                "at once with results read after all calls; enum commands; n_args by keyword, position and default; "
+                "distinct = distinct constructor arguments / datagram bytes")
     chk.exhaustive = False
     chk.sample(evs[0]); chk.sample(evs[len(evs) // 2]); chk.sample(evs[-1])
 
@@ -180,6 +425,10 @@ def selftest(chk):
         (dict(ev=[["scp_dec", b, 2, mod(q, sport=1)]]), "DecodeFields"),
         (dict(ev=[["scp_dec", b, 2, mod(q, args=[q["args"][0], [], []])]]), "DecodeArgs"),
         (dict(ev=[["scp_dec", b, 2, mod(q, data=q["data"][1:])]]), "DecodePayload"),
+        (dict(ev=[["new", dict(tag=0xff, sx=0, data=list(b"xyz")), r]]), None),
+        (dict(ev=[["new", dict(tag=0xff, sx=1, data=list(b"xyz")), r]]), "HoldsWhatWasGiven"),
+        (dict(ev=[["new", dict(tag=0xff, data=[]), r]]), "HoldsWhatWasGiven"),
+        (dict(ev=[["raised", "bytestring", "TypeError"]]), "CompletesWithoutError"),
     ]
     rej = chk.validate("PacketsTrace", "PacketsTrace.cfg", [c[0] for c in cases])
     got = {id(t): cl for t, _, cl in rej}
@@ -188,4 +437,4 @@ def selftest(chk):
         cl = got.get(id(tr))
         if (want is None) != (cl is None) or (want and want not in cl):
             msgs.append("expected %s, got %s" % (want, cl))
-    return not msgs, "; ".join(msgs) or "%d corrupted traces rejected with the expected clauses" % (len(cases) - 1)
+    return not msgs, "; ".join(msgs) or "%d corrupted traces rejected with the expected clauses" % (len(cases) - 2)
